@@ -281,3 +281,89 @@ def replay_diff(v, exe_dev, exe_rel, keep_err=True):
         b = native_obs(exe, var, chunks)
         out[name] = {"differs": normalize_native(a, keep_err) != normalize_native(b, keep_err), "base": a[:12], "variant": b[:12]}
     return out
+
+
+# ---------------------------------------------------------------- C01: implementation vs WHATWG reference
+def explore_ref(cfgd, chars, constraints, entities, stats):
+    from spec.html_tokenizer_ref import Ref
+    from mirsym.interp import Machine, PathEnd
+    work = [[]]
+    out = []
+    while work:
+        d = work.pop()
+        m = Machine(None, d)
+        for c in constraints:
+            m.assume(c)
+        try:
+            r = Ref(m, chars, _tup(cfgd["state"]), cfgd["last_start_tag"], _tup(cfgd["on_start"]), cfgd["foreign"], entities)
+            toks = r.run()
+            out.append((list(m.pc), toks, None))
+        except PathEnd:
+            pass
+        work.extend(m.pending)
+        stats["queries"] = stats.get("queries", 0) + m.nqueries
+    stats["ref_paths"] = stats.get("ref_paths", 0) + len(out)
+    return out
+
+
+def unit_c01(args):
+    t0 = time.time()
+    res = {"unit": "C01 %s k=%d cls=%s" % (tok.state_spec(_tup(args["state"])), args["k"], args.get("classes")),
+           "paths": 0, "queries": 0, "obligations": 0, "violations": [], "panics": [], "errors": [], "livelock": 0}
+    try:
+        k = args["k"]
+        chars, cons = tok.sym_chars(k, args.get("classes"))
+        prefix = args.get("prefix") or []
+        allch = list(prefix) + chars
+        base = dict(args["base"])
+        base["state"] = _tup(args["state"])
+        stats = {}
+        ents = {n: v for n, v in _PROG.entities.items() if v != (0, 0)} if args.get("entities") is None else args["entities"]
+        A = tok.explore(_PROG, mk_cfg(base, constraints=cons), allch, stats=stats)
+        for a in A:
+            check_path_sanity(res, a, allch, base, None, args)
+            if a.outcome != "ok":
+                continue
+            oa = tok.normalize(a.tokens, drop_errors=True, keep_lines=False)
+            B = explore_ref(base, allch, cons + a.pc, ents, stats)
+            for pcb, toks, _ in B:
+                ob = tok.normalize(toks, drop_errors=True, keep_lines=False)
+                eq = tok.obs_equal(oa, ob)
+                res["obligations"] += 1
+                if eq is True:
+                    continue
+                r, mo = model_of(pcb, [z3.Not(eq)] if eq is not False else [])
+                res["queries"] += 1
+                if r == z3.unsat:
+                    continue
+                if r != z3.sat:
+                    res["errors"].append("solver unknown in obligation")
+                    continue
+                cc = concrete_chars(allch, mo)
+                res["violations"].append({"what": "tokens differ from the WHATWG reference", "chars": cc, "base": cfg_dict(mk_cfg(base)),
+                                          "variant": None, "lens": None, "label": "spec", "state": tok.state_spec(base["state"]),
+                                          "obs_base": tok.show_obs(oa, mo), "obs_variant": tok.show_obs(ob, mo)})
+        res["paths"] = stats.get("paths", 0)
+        res["ref_paths"] = stats.get("ref_paths", 0)
+        res["queries"] += stats.get("queries", 0)
+    except Unsupported as e:
+        res["errors"].append("unsupported: " + str(e)[:300])
+    except Exception as e:
+        res["errors"].append("exception: " + traceback.format_exc()[-900:])
+    res["wall"] = time.time() - t0
+    res["models_used"] = sorted(MD.USED)
+    return res
+
+
+def run_units_fn(fn, units, mir, ent, crate="html5ever", jobs=None):
+    jobs = jobs or int(os.environ.get("VERIF_JOBS", "16"))
+    with multiprocessing.Pool(jobs, initializer=_init, initargs=(mir, ent, crate)) as pool:
+        return list(pool.imap_unordered(fn, units, chunksize=1))
+
+
+def ref_concrete(cfgd, chars, entities):
+    """run the reference on a concrete string (used to re-check a counter-example independently of z3)"""
+    st = {}
+    out = explore_ref(cfgd, chars, [], entities, st)
+    assert len(out) == 1
+    return tok.normalize(out[0][1], drop_errors=True, keep_lines=False)
